@@ -22,7 +22,27 @@ def rstr(rng, alphabet, lo, hi):
     return "".join(rng.choice(alphabet) for _ in range(rng.randint(lo, hi)))
 
 
-def api_consistency(obj, new, text, dump_kwargs=None):
+def snap(o, seen=None):
+    """the public state of a metadata object as plain data (sets sorted, back references and private attributes left out)"""
+    seen = seen or set()
+    if isinstance(o, (str, int, float, bool, type(None))):
+        return o
+    if id(o) in seen:
+        return "<cycle>"
+    seen = seen | {id(o)}
+    if isinstance(o, (list, tuple)):
+        return [snap(x, seen) for x in o]
+    if isinstance(o, (set, frozenset)):
+        return sorted((snap(x, seen) for x in o), key=repr)
+    if isinstance(o, dict):
+        return {str(k): snap(v, seen) for k, v in sorted(o.items(), key=lambda kv: str(kv[0]))}
+    if type(o).__module__.startswith("productmd") and hasattr(o, "__dict__"):
+        return {"<class>": type(o).__name__,
+                "attrs": {k: snap(v, seen) for k, v in sorted(vars(o).items()) if not k.startswith("_") and k not in ("parent", "header")}}      # writing stamps the header with the current version
+    return repr(o)
+
+
+def api_consistency(obj, new, text, dump_kwargs=None, before=None):
     """the same object through every entry point: dump(path), dump(file object), dumps(), a second dumps();
     load(path), load(file object), loads().  Returns a list of inconsistencies (empty when all agree)."""
     import os
@@ -30,6 +50,8 @@ def api_consistency(obj, new, text, dump_kwargs=None):
     import tempfile
     kw = dump_kwargs or {}
     problems = []
+    if before is not None and snap(obj) != before:
+        problems.append("writing changed the object itself (its public state before and after dumps() differs)")
     work = tempfile.mkdtemp(prefix="api-", dir=os.path.join(VERIF, ".work"))
     try:
         p1, p2 = os.path.join(work, "by-path"), os.path.join(work, "by-file")
@@ -56,6 +78,8 @@ def api_consistency(obj, new, text, dump_kwargs=None):
             outs.append(o.dumps())
         if len(set(outs)) != 1:
             problems.append("load(path), load(file object) and loads() give different objects")
+        if before is not None and snap(obj) != before:
+            problems.append("writing changed the object itself (its public state before and after dump() differs)")
     except Exception as e:
         problems.append("an API entry point raised %s: %s" % (type(e).__name__, str(e)[:100]))
     finally:
